@@ -52,7 +52,7 @@ def run(run):
     breq = []
     for c in cells:
         r = spec.decode(c)[0]
-        seg = 64 if r <= 3 else 32 if r <= 8 else 16
+        seg = 64 if r <= 3 else 32
         breq.append(f"cell_to_boundary {c} 1 {seg}")
     bimpl, bmodel = core.both(run, breq, "cell_to_boundary", timeout=3000)
     worst = 0.0
@@ -77,7 +77,7 @@ def run(run):
         run.evaluations += 1
         if abs(s - 4 * math.pi) > 1e-6:
             run.violation(f"the areas of all cells of resolution {r} sum to {s}, not 4*pi", f"resolution {r}", str(s))
-    run.rule = ("metadata for r = -2..32; polygon area (independent l'Huilier / tangent-plane integrator on the authalic sphere, WGS84 closed-form authalic latitude) of the reported boundary with 64/32/16 segments per edge: "
+    run.rule = ("metadata for r = -2..32; polygon area (independent l'Huilier / tangent-plane integrator on the authalic sphere, WGS84 closed-form authalic latitude) of the reported boundary with 64/32 segments per edge: "
                 "all cells of resolution <= %d, cells at the poles, the antimeridian and the dodecahedron vertex/seam latitudes at every resolution, random cells up to r=29; non-trivial = distinct cells measured" % rmax)
     run.samples = [{"request": breq[i], "area_rel_err": "see worst_relative_error", "impl": bimpl[i][:100]} for i in rng.sample(range(len(breq)), 4)]
     run.extra["worst_relative_error"] = worst
